@@ -7,6 +7,7 @@
 package termincommittee
 
 import (
+	"bytes"
 	"context"
 	"fmt"
 	"github.com/orbs-network/lean-helix-go/instrumentation/metrics"
@@ -415,7 +416,7 @@ func (tic *TermInCommittee) validatePreprepare(ppm *interfaces.PreprepareMessage
 
 	header := ppm.Content().SignedHeader()
 	sender := ppm.Content().Sender()
-	if err := tic.keyManager.VerifyConsensusMessage(header.BlockHeight(), header.Raw(), sender); err != nil {
+	if err := tic.keyManager.VerifyConsensusMessage(header.BlockHeight(), canonicalBlockRef(header), sender); err != nil {
 		tic.logger.ConsensusTrace("failed to verify preprepare - maybe a committee mismatch?", err, log.Stringable("sender", sender))
 
 		return errors.Wrapf(err, "verification failed for sender %s signature on header", Str(sender.MemberId()))
@@ -456,13 +457,26 @@ func (tic *TermInCommittee) processPreprepare(ppm *interfaces.PreprepareMessage)
 	}
 }
 
+// canonicalBlockRef re-encodes a signed header field by field, the way it is rebuilt inside prepared proofs and
+// block proofs. PREPREPARE, PREPARE and COMMIT signatures are verified over this encoding, so that a signature
+// accepted here also verifies there (the reader tolerates e.g. trailing bytes, which a faulty member could sign).
+func canonicalBlockRef(header *protocol.BlockRef) []byte {
+	return (&protocol.BlockRefBuilder{
+		MessageType: header.MessageType(),
+		InstanceId:  header.InstanceId(),
+		BlockHeight: header.BlockHeight(),
+		View:        header.View(),
+		BlockHash:   header.BlockHash(),
+	}).Build().Raw()
+}
+
 func (tic *TermInCommittee) HandlePrepare(pm *interfaces.PrepareMessage) {
 	tic.logger.Debug("LHMSG RECEIVED PREPARE (msg: H=%d V=%d sender=%s)",
 		pm.BlockHeight(), pm.View(), Str(pm.SenderMemberId()))
 	header := pm.Content().SignedHeader()
 	sender := pm.Content().Sender()
 
-	if err := tic.keyManager.VerifyConsensusMessage(header.BlockHeight(), header.Raw(), sender); err != nil {
+	if err := tic.keyManager.VerifyConsensusMessage(header.BlockHeight(), canonicalBlockRef(header), sender); err != nil {
 		tic.logger.Info("LHMSG RECEIVED PREPARE IGNORE - verification failed for Prepare block-height=%v view=%d block-hash=%s err=%v", header.BlockHeight(), header.View(), header.BlockHash(), err)
 		return
 	}
@@ -550,7 +564,7 @@ func (tic *TermInCommittee) HandleCommit(cm *interfaces.CommitMessage) {
 	header := cm.Content().SignedHeader()
 	sender := cm.Content().Sender()
 
-	if err := tic.keyManager.VerifyConsensusMessage(header.BlockHeight(), header.Raw(), sender); err != nil {
+	if err := tic.keyManager.VerifyConsensusMessage(header.BlockHeight(), canonicalBlockRef(header), sender); err != nil {
 		tic.logger.Info("LHMSG RECEIVED COMMIT IGNORE - verification failed for Commit block-height=%d view=%d block-hash=%s err=%v", header.BlockHeight(), header.View(), header.BlockHash(), err)
 		return
 	}
@@ -639,6 +653,13 @@ func (tic *TermInCommittee) HandleViewChange(vcm *interfaces.ViewChangeMessage) 
 	}
 
 	header := vcm.Content().SignedHeader()
+	// a counted vote is embedded into the NEW_VIEW re-encoded field by field, and the followers verify the
+	// voter's signature over that encoding: a vote that does not re-encode to itself would poison the NEW_VIEW
+	reencoded := interfaces.ExtractConfirmationsFromViewChangeMessages([]*interfaces.ViewChangeMessage{vcm})[0].Build()
+	if !bytes.Equal(reencoded.SignedHeader().Raw(), header.Raw()) {
+		tic.logger.Info("LHMSG RECEIVED VIEW_CHANGE IGNORE - signed header is not canonically encoded")
+		return
+	}
 	hasPreparedProof := header.PreparedProof() != nil && len(header.PreparedProof().Raw()) > 0
 	if hasPreparedProof != (vcm.Block() != nil) {
 		// a vote either carries a prepared proof together with its block, or neither: a proof without
